@@ -170,6 +170,17 @@ def ed25519(ctx, world, ev):
             c = (-pe.t.get((), 0)) % Q
             if c and (pe - curve * c).is_zero():
                 found = True
+        for (t, pol) in conds:
+            if isinstance(t, App) and t.f.startswith("fn:") and pol is True and len(t.args) == 1 and isinstance(t.args[0], TupleV) \
+                    and len(t.args[0].items) == 2:
+                cx, cy = t.args[0].items
+                try:
+                    same = (term_poly(cx, Q, dict(atoms)) - px).is_zero() and (term_poly(cy, Q, dict(atoms)) - py).is_zero()
+                except AnalysisError:
+                    same = False
+                cf = gm.func_by_qual(world, t.f[3:])
+                if same and cf is not None and gm.oncurve_test_ok(world, ev, cf)[0]:
+                    found = True
         ctx.ob("D3-curve", inst, found, "on-curve guard is the curve equation -x^2 + y^2 = 1 + d x^2 y^2 on the decoded (x, y)" if found else
                "no guard on the accepting path is the curve equation of the decoded coordinates", fsite)
         # ---- D3b L-torsion through the complete ladder on this point
@@ -182,23 +193,21 @@ def ed25519(ctx, world, ev):
                 continue
             okid, _ = gm.identity_test_ok(world, ev, f)
             call = gm.unproj(t.args[0])
-            if not okid or call is None or not call.f.startswith("fn:"):
+            lc = gm.ladder_call(world, ev, call) if okid else None
+            if lc is None:
                 continue
-            lad = gm.func_by_qual(world, call.f[3:])
-            if lad is None or ev.policy.classify(lad) != "recursive":
-                continue
-            uses = set(gm.ladder_info(world, ev, lad))
+            uses = lc["uses"]
             if uses & dedicated:
                 why = "membership test multiplies with the dedicated (non-unified) addition, which is wrong for points outside the subgroup"
                 continue
             if not (uses & complete and uses & doubles):
                 why = "membership ladder does not use the complete addition and the doubling formula"
                 continue
-            if len(call.args) != 2 or call.args[0] != coords:
+            if lc["pt"] != coords:
                 why = "membership test is applied to a point other than the decoded one"
                 continue
-            if call.args[1] != L:
-                why = "membership test multiplies by %s, not by the group order L" % show(call.args[1])
+            if lc["n"] != L:
+                why = "membership test multiplies by %s, not by the group order L" % show(lc["n"])
                 continue
             okm, why = True, "is_identity(L * P) with the complete ladder on the decoded point"
         ctx.ob("D3-order", inst, okm, why, fsite)
